@@ -18,6 +18,9 @@ import (
 type HandShard struct {
 	Fanout int
 	Links  []HandShardLink
+	// ZeroBitfield: the bitfield is present but has no bit set although the
+	// node has links (walks of the whole directory never consult it)
+	ZeroBitfield bool
 }
 
 // HandShardLink is a value link (Name != "") or a child shard link.
@@ -45,6 +48,9 @@ func (h HandShard) Build(s *store.Store) (cid.Cid, uint64) {
 			links = append(links, model.PBLink{Cid: leaf.Cid, Name: prefix + l.Name, HasName: true, Tsize: leaf.Tsize, HasTsize: true})
 			total += leaf.Tsize
 		}
+	}
+	if h.ZeroBitfield {
+		bf = make([]byte, h.Fanout/8)
 	}
 	for len(bf) > 1 && bf[0] == 0 {
 		bf = bf[1:]
@@ -75,6 +81,9 @@ func HandShards() map[string]HandShard {
 		"mixed 16>256>256":  hs(16, hv(1, "top"), hc(3, hs(256, hv(0x0A, "q"), hc(0x0B, hs(256, hv(0x11, "x"), hv(0xFE, "yy")))))),
 		"mixed 8>1024>1024": hs(8, hc(5, hs(1024, hv(0x00A, "1k"), hc(0x3FF, hs(1024, hv(0x001, "v"), hv(0x002, "w")))))),
 		"mixed 1024>8>64":   hs(1024, hv(0x005, "a"), hc(0x200, hs(8, hv(1, "b"), hc(6, hs(64, hv(0x3F, "c"), hv(0x01, "dd")))))),
+		// bitfield without any bit although links are present
+		"irregular zero-bitfield root":  {Fanout: 16, ZeroBitfield: true, Links: []HandShardLink{hv(1, "top"), hc(3, hs(16, hv(0xA, "q"), hc(0xB, hs(16, hv(1, "x")))))}},
+		"irregular zero-bitfield inner": hs(16, hv(1, "top"), hc(3, HandShard{Fanout: 16, ZeroBitfield: true, Links: []HandShardLink{hv(0xA, "q"), hc(0xB, hs(16, hv(1, "x")))}})),
 		// uniform, for comparison (same writer)
 		"uniform 16>16": hs(16, hv(1, "top"), hc(3, hs(16, hv(0xA, "q"), hc(0xB, hs(16, hv(1, "x")))))),
 	}
@@ -88,4 +97,76 @@ func HandShardLabels() []string {
 	}
 	sortStrings(out)
 	return out
+}
+
+// MixedHamt writes a well-formed HAMT (every entry in the bucket its hash
+// selects) whose level ℓ has fanout fanouts[min(ℓ, len-1)]: hash bits are
+// consumed level by level, each level taking log2 of ITS fanout. Readers that
+// size each shard from its own block (this library, the reference reader) read
+// such directories; neither writer emits them. Choose fanouts with the same
+// link-name prefix width (8/16, 32..256, 512/1024): the iterator of this
+// library refuses a width change.
+func MixedHamt(s *store.Store, es []DirEntry, fanouts []int) (cid.Cid, uint64, error) {
+	type item struct {
+		e DirEntry
+		h uint64
+	}
+	var items []item
+	for _, e := range es {
+		items = append(items, item{e, model.Hash64(e.Name)})
+	}
+	var build func(level, consumed int, its []item) (cid.Cid, uint64, error)
+	build = func(level, consumed int, its []item) (cid.Cid, uint64, error) {
+		f := fanouts[len(fanouts)-1]
+		if level < len(fanouts) {
+			f = fanouts[level]
+		}
+		w := 0
+		for 1<<uint(w) < f {
+			w++
+		}
+		if consumed+w > 64 {
+			return cid.Undef, 0, fmt.Errorf("names collide in every hash bit")
+		}
+		pad := model.PadLen(f)
+		groups := map[int][]item{}
+		for _, it := range its {
+			b := int((it.h >> uint(64-consumed-w)) & (uint64(f) - 1))
+			groups[b] = append(groups[b], it)
+		}
+		bf := make([]byte, f/8)
+		var links []model.PBLink
+		total := uint64(0)
+		for b := 0; b < f; b++ {
+			g := groups[b]
+			if len(g) == 0 {
+				continue
+			}
+			bf[len(bf)-1-b/8] |= 1 << uint(b%8)
+			prefix := fmt.Sprintf("%0*X", pad, b)
+			if len(g) == 1 {
+				links = append(links, model.PBLink{Cid: g[0].e.Cid, Name: prefix + g[0].e.Name, HasName: true, Tsize: g[0].e.Tsize, HasTsize: true})
+				total += g[0].e.Tsize
+				continue
+			}
+			c, sz, err := build(level+1, consumed+w, g)
+			if err != nil {
+				return cid.Undef, 0, err
+			}
+			links = append(links, model.PBLink{Cid: c, Name: prefix, HasName: true, Tsize: sz, HasTsize: true})
+			total += sz
+		}
+		for len(bf) > 1 && bf[0] == 0 {
+			bf = bf[1:]
+		}
+		d := []byte{0x08, 0x05, 0x12}
+		d = protowire.AppendBytes(d, bf)
+		d = append(d, 0x28, 0x22, 0x30)
+		d = protowire.AppendVarint(d, uint64(f))
+		blk := model.EncodePB(&model.PBNode{Data: d, HasData: true, Links: links})
+		c, _ := V1PB.Sum(blk)
+		s.Put(c, blk)
+		return c, total + uint64(len(blk)), nil
+	}
+	return build(0, 0, items)
 }
